@@ -73,3 +73,49 @@ proof fn lemma_consts()
 	assert(MAX_SOURCE_LEN == 0x8000_0000) by (compute_only);
 	assert((1usize << 16) == 0x10000) by (bit_vector);
 }
+
+// ---- integer literal values (C09): value of a digit string in a base, `_` separators skipped ----
+pub open spec fn bin_val(a: u8) -> Option<u8> { if a == 48 { Some(0u8) } else if a == 49 { Some(1u8) } else { None } }
+pub open spec fn digv(s: Seq<u8>, base: nat) -> nat
+	decreases s.len()
+{
+	if s.len() == 0 { 0 } else {
+		let d = if base == 16 { hex_val(s.last()) } else if base == 10 { dec_val(s.last()) } else { bin_val(s.last()) };
+		match d { Some(x) => digv(s.drop_last(), base) * base + x as nat, None => digv(s.drop_last(), base) }
+	}
+}
+pub open spec fn digcount(s: Seq<u8>, base: nat) -> nat
+	decreases s.len()
+{
+	if s.len() == 0 { 0 } else {
+		let d = if base == 16 { hex_val(s.last()) } else if base == 10 { dec_val(s.last()) } else { bin_val(s.last()) };
+		digcount(s.drop_last(), base) + (if d is Some { 1nat } else { 0nat })
+	}
+}
+pub open spec fn two128() -> nat { (u128::MAX as nat) + 1 }
+proof fn lemma_digv_push(s: Seq<u8>, b: u8, base: nat)
+	ensures
+		digv(s.push(b), base) == (match (if base == 16 { hex_val(b) } else if base == 10 { dec_val(b) } else { bin_val(b) }) { Some(x) => digv(s, base) * base + x as nat, None => digv(s, base) }),
+		digcount(s.push(b), base) == digcount(s, base) + (if (if base == 16 { hex_val(b) } else if base == 10 { dec_val(b) } else { bin_val(b) }) is Some { 1nat } else { 0nat }),
+{
+	assert(s.push(b).drop_last() =~= s);
+	assert(s.push(b).last() == b);
+}
+proof fn lemma_subrange_push(s: Seq<u8>, a: int, p: int)
+	requires 0 <= a <= p < s.len()
+	ensures s.subrange(a, p + 1) =~= s.subrange(a, p).push(s[p])
+{ }
+pub open spec fn pow2n(n: nat) -> nat decreases n { if n == 0 { 1 } else { 2 * pow2n((n - 1) as nat) } }
+proof fn lemma_pow2n_128()
+	ensures pow2n(128) == two128(), pow2n(127) * 2 == two128()
+{
+	assert(pow2n(128) == two128()) by (compute_only);
+	assert(pow2n(127) * 2 == pow2n(128));
+}
+proof fn lemma_pow2n_mono(a: nat, b: nat)
+	requires a <= b
+	ensures pow2n(a) <= pow2n(b)
+	decreases b - a
+{
+	if a < b { lemma_pow2n_mono(a, (b - 1) as nat); }
+}
